@@ -2535,16 +2535,6 @@ class Processor:
                         yield node_coord
                     continue
 
-                if next_coord.node is None:
-                    self.logger.debug((
-                        "Relaying a None element <{}>{} from the data."
-                        ).format(segment_type, except_segment),
-                        prefix="Processor::_get_optional_nodes:  ",
-                        data=next_coord
-                    )
-                    yield next_coord
-                    continue
-
                 self.logger.debug((
                     "Found element <{}>{} in the data; recursing into it..."
                     ).format(segment_type, except_segment),
@@ -2579,6 +2569,20 @@ class Processor:
                     ).format(segment_type, except_segment, type(value), value),
                     data=data
                 )
+                if (
+                        data is None
+                        and isinstance(parent, (dict, list))
+                        and segment_type in [
+                            PathSegmentTypes.INDEX,
+                            PathSegmentTypes.KEY]
+                ):
+                    # A null is a place-holder for content that does not
+                    # exist, yet.  Put the kind of container this segment
+                    # needs in its place; the missing element is added to
+                    # that container, below.
+                    data = Nodes.build_next_node(yaml_path, depth, value)
+                    parent[parentref] = data
+
                 if isinstance(data, list):
                     self.logger.debug(
                         "Processor::_get_optional_nodes:  Dealing with a list"
